@@ -416,6 +416,23 @@ gproof! { #[kani::unwind(12)] fn c06_arc_from_iter_inexact_len9() {
     assert!(vrt::drops() == 9 && vrt::glive(0));
 } }
 
+/// inexact iterator of zero-sized items with a destructor
+pub(crate) struct InexactZd { pub left: usize }
+impl Iterator for InexactZd {
+    type Item = Zd;
+    fn next(&mut self) -> Option<Zd> { if self.left == 0 { None } else { self.left -= 1; Some(Zd) } }
+    fn size_hint(&self) -> (usize, Option<usize>) { (0, None) }
+}
+// @h props=C06 bounded=len<=3 fuc=Arc::from_iter,UniqueArc::from_iter note="zero-sized items WITH a destructor through the inexact path: none destroyed by the constructor, each destroyed exactly once by the allocation"
+gproof! { #[kani::unwind(6)] fn c06_arc_from_iter_inexact__zero_sized_with_drop() {
+    let len: usize = kani::any();
+    kani::assume(len <= 3);
+    let a: Arc<[Zd]> = Arc::from_iter(InexactZd { left: len });
+    assert!(a.len() == len && cnt(&a) == 1 && unsafe { vrt::ZDROPS } == 0);
+    drop(a);
+    assert!(unsafe { vrt::ZDROPS } == len && vrt::glive(0));
+} }
+
 // @h props=C06 fuc=Arc::default,Arc::from(T)
 gproof! { fn c06_arc_default_and_from_value() {
     let d: Arc<u32> = Arc::default();
